@@ -89,6 +89,37 @@ func (e *Engine) initSummaries(fs []*ssa.Function) {
 				}
 			}
 		}
+		if res.Len() == 1 {
+			if bt, ok := res.At(0).Type().Underlying().(*types.Basic); ok && bt.Kind() == types.Bool {
+				addT := func(desc string, mk func(e callEnv) Lin) {
+					sum.truePost = append(sum.truePost, &sumCand{desc: "true => " + desc, res: 0, mk: mk, ok: true})
+				}
+				for pi, p := range f.Params {
+					pi := pi
+					if !isSliceOrStr(p.Type()) {
+						continue
+					}
+					ks := []int64{1, 2, 3, 4}
+					for c := range consts {
+						ks = append(ks, c, c+1)
+					}
+					for _, k := range ks {
+						k := k
+						addT(fmt.Sprintf("len(p%d)>=%d", pi, k), func(e callEnv) Lin { return le(konst(k), e.argLen(pi)) })
+					}
+					for pj, q := range f.Params {
+						pj := pj
+						if pj == pi || !isSliceOrStr(q.Type()) {
+							continue
+						}
+						for _, c := range []int64{0, 1, 2} {
+							c := c
+							addT(fmt.Sprintf("len(p%d)>=len(p%d)+%d", pi, pj, c), func(e callEnv) Lin { return le(e.argLen(pj).plus(c), e.argLen(pi)) })
+						}
+					}
+				}
+			}
+		}
 		for pi, p := range f.Params {
 			if pt, ok := p.Type().Underlying().(*types.Pointer); ok {
 				if _, ok := pt.Elem().Underlying().(*types.Slice); ok {
@@ -105,10 +136,30 @@ func (e *Engine) checkSummaries(fs []*ssa.Function) bool {
 	dropped := false
 	for _, f := range fs {
 		sum := e.sums[f]
-		if len(sum.post) == 0 && len(sum.cellShrink) == 0 {
+		if len(sum.post) == 0 && len(sum.cellShrink) == 0 && len(sum.truePost) == 0 {
 			continue
 		}
 		s := e.fn(f)
+		if len(sum.truePost) > 0 {
+			env := callEnv{
+				arg:    func(i int) Lin { return s.canon(f.Params[i]) },
+				argLen: func(i int) Lin { return s.lenOf(f.Params[i]) },
+			}
+			for _, b := range f.Blocks {
+				r, ok := b.Instrs[len(b.Instrs)-1].(*ssa.Return)
+				if !ok {
+					continue
+				}
+				for _, ctx := range s.trueContexts(b, r.Results[0]) {
+					for _, c := range sum.truePost {
+						if c.ok && !s.entails(ctx.fs, ctx.dq, c.mk(env)) {
+							c.ok = false
+							dropped = true
+						}
+					}
+				}
+			}
+		}
 		for _, b := range f.Blocks {
 			r, ok := b.Instrs[len(b.Instrs)-1].(*ssa.Return)
 			if !ok {
@@ -168,6 +219,43 @@ func (e *Engine) checkSummaries(fs []*ssa.Function) bool {
 		}
 	}
 	return dropped
+}
+
+type factCtx struct{ fs, dq []Lin }
+
+// trueContexts: the fact sets under which the bool value v, returned at the
+// end of block b, may be true (phis of short-circuit operators are split by edge).
+func (s *Fn) trueContexts(b *ssa.BasicBlock, v ssa.Value) []factCtx {
+	if k, ok := v.(*ssa.Const); ok {
+		if k.Value != nil && k.Value.Kind() == constant.Bool && !constant.BoolVal(k.Value) {
+			return nil
+		}
+		fs, dq := s.factsAt(b, len(b.Instrs))
+		return []factCtx{{fs, dq}}
+	}
+	if ph, ok := v.(*ssa.Phi); ok && ph.Block() == b {
+		var out []factCtx
+		for i, e := range ph.Edges {
+			pred := b.Preds[i]
+			if k, ok := e.(*ssa.Const); ok && k.Value != nil && k.Value.Kind() == constant.Bool && !constant.BoolVal(k.Value) {
+				continue
+			}
+			fs, dq := s.factsAt(pred, len(pred.Instrs))
+			ef, eq := s.edgeFacts(pred, b)
+			fs = append(append([]Lin{}, fs...), ef...)
+			dq = append(append([]Lin{}, dq...), eq...)
+			if _, isC := e.(*ssa.Const); !isC {
+				cf, cq := s.condFacts(e, true)
+				fs = append(fs, cf...)
+				dq = append(dq, cq...)
+			}
+			out = append(out, factCtx{fs, dq})
+		}
+		return out
+	}
+	fs, dq := s.factsAt(b, len(b.Instrs))
+	cf, cq := s.condFacts(v, true)
+	return []factCtx{{append(append([]Lin{}, fs...), cf...), append(append([]Lin{}, dq...), cq...)}}
 }
 
 // cellInvariants: for local allocs of slice type passed by address to callees.
@@ -330,6 +418,11 @@ func Run(prog *ssa.Program, inMod func(*ssa.Function) bool) *Result {
 				keep = append(keep, c.desc)
 			}
 		}
+		for _, c := range e.sums[f].truePost {
+			if c.ok {
+				keep = append(keep, c.desc)
+			}
+		}
 		for pi, ok := range e.sums[f].cellShrink {
 			if ok {
 				keep = append(keep, fmt.Sprintf("cellShrink(p%d)", pi))
@@ -485,6 +578,43 @@ func findLoops(f *ssa.Function) []loopInfo {
 	return out
 }
 
+// loopInvariant: x has the same value in every iteration of lp.
+func (s *Fn) loopInvariant(x ssa.Value, lp loopInfo) bool {
+	in, ok := x.(ssa.Instruction)
+	if !ok {
+		return true // parameter, constant, global
+	}
+	if !lp.blocks[in.Block()] {
+		return true
+	}
+	u, ok := x.(*ssa.UnOp)
+	if !ok || u.Op != token.MUL {
+		return false
+	}
+	k, ok := addrKey(u.X)
+	if !ok {
+		return false
+	}
+	// the base of the address must itself be invariant
+	switch r := k.root.(type) {
+	case *ssa.Parameter, *ssa.Global, *ssa.FreeVar:
+	case *ssa.Alloc:
+		if lp.blocks[r.Block()] {
+			return false
+		}
+	default:
+		return false
+	}
+	for blk := range lp.blocks {
+		for _, ins := range blk.Instrs {
+			if s.clobbers(ins, k) {
+				return false
+			}
+		}
+	}
+	return true
+}
+
 // rankLoops tries, for every loop of f, to find a ranking expression.
 func (s *Fn) rankLoops() (out []LoopRes) {
 	for _, lp := range findLoops(s.f) {
@@ -556,6 +686,23 @@ func (s *Fn) rankLoops() (out []LoopRes) {
 			bounds = append(bounds, konst(-(1 << 20)))
 			for _, sp := range s.sliceParams() {
 				bounds = append(bounds, s.lenOf(sp).scale(-1).plus(-1))
+			}
+			// len(x) of a value that cannot change while the loop runs (defined outside the loop, or a load
+			// of a location that nothing in the loop may write)
+			for blk := range lp.blocks {
+				for _, in := range blk.Instrs {
+					call, ok := in.(*ssa.Call)
+					if !ok {
+						continue
+					}
+					if bi, ok := call.Call.Value.(*ssa.Builtin); !ok || bi.Name() != "len" {
+						continue
+					}
+					x := call.Call.Args[0]
+					if s.loopInvariant(x, lp) {
+						bounds = append(bounds, s.lenOf(x).scale(-1).plus(-1))
+					}
+				}
 			}
 			for _, b := range bounds {
 				allL := true
